@@ -526,11 +526,12 @@ _SUMMARY_CACHE = {}
 
 
 def cached_summaries(repo):
-    key = id(repo)
-    if key not in _SUMMARY_CACHE:
-        _SUMMARY_CACHE.clear()
-        _SUMMARY_CACHE[key] = compute_summaries(repo)
-    return _SUMMARY_CACHE[key]
+    # cached on the Repo object itself: id(repo) is reused once a Repo is collected, which handed a later overlay the summaries of an earlier tree
+    got = getattr(repo, '_effect_summaries', None)
+    if got is None:
+        got = compute_summaries(repo)
+        repo._effect_summaries = got
+    return got
 
 
 def rule_pure(repo, rid, text, targets, floor=None, allow_self=True):
